@@ -171,11 +171,11 @@ pub fn fire_exit() {
     }
     let b = [cmd as u8, (cmd >> 8) as u8];
     unsafe {
-        libc::syscall(libc::SYS_write, fd, b.as_ptr(), 2usize);
+        crate::rsys!(libc::SYS_write, fd, b.as_ptr(), 2usize);
         // wait (without reaping) until the child has really terminated
         let mut info: libc::siginfo_t = std::mem::zeroed();
         loop {
-            let r = libc::syscall(libc::SYS_waitid, libc::P_PID, pid, &mut info as *mut _, libc::WEXITED | libc::WNOWAIT, 0usize);
+            let r = crate::rsys!(libc::SYS_waitid, libc::P_PID, pid, &mut info as *mut _, libc::WEXITED | libc::WNOWAIT, 0usize);
             if r == 0 {
                 EXIT_SIGINFO.store(info.si_code as i64 | (info.si_status() as i64) << 8, SeqCst);
                 break;
